@@ -195,6 +195,10 @@ fn check(id: &str, tier: Tier) -> i32 {
             machinery_fail = true;
         }
     }
+    for m in engine::take_machinery_failures() {
+        eprintln!("machinery: {}", m);
+        machinery_fail = true;
+    }
 
     let exhaustive = rep.caps_hit.is_empty();
     let mut coverage = serde_json::Map::new();
